@@ -57,8 +57,82 @@ def deadline_probe():
     return simnet.run(go)
 
 
+def one_shot_subscriber_probe():
+    """A one-shot subscriber for type T (registered before, it unsubscribes itself inside its callback) and a request/response call
+    waiting for T: the message completes the call all the same. And a call for T that is started from inside a callback for T
+    (its request is written while the message is being dispatched) is not completed by that message - it arrived before the
+    request was written - but by the next one. Returns a list of problems."""
+    import asyncio
+    from vlib import simnet
+    from vlib.privnames import priv
+
+    async def go(loop):
+        from aioesphomeapi import api_pb2 as pb
+        net = simnet.Net(loop)
+        problems = []
+        with net.patched():
+            cli, tr = await simnet.connected_client(loop, net)
+            conn = priv(cli, "_connection")
+            for position in ("before", "after"):
+                box = {}
+                seen = []
+
+                def one_shot(m):
+                    seen.append(m.name)
+                    box["remove"]()
+                if position == "before":
+                    box["remove"] = conn.add_message_callback(one_shot, (pb.DeviceInfoResponse,))
+                call = asyncio.ensure_future(conn.send_messages_await_response_complex((pb.DeviceInfoRequest(),), None, None, (pb.DeviceInfoResponse,), 5.0))
+                await simnet.drain(loop)
+                if position == "after":
+                    box["remove"] = conn.add_message_callback(one_shot, (pb.DeviceInfoResponse,))
+                tr.feed(simnet.plain_msg(pb.DeviceInfoResponse(name="first-" + position)))
+                await simnet.drain(loop)
+                if not call.done():
+                    problems.append(f"one-shot subscriber registered {position} the call: the call is still pending although its response arrived (subscriber saw {seen})")
+                    call.cancel()
+                elif call.exception() is not None or [m.name for m in call.result()] != ["first-" + position]:
+                    problems.append(f"one-shot subscriber registered {position} the call: the call ended with {call.exception() or [m.name for m in call.result()]}")
+                if seen != ["first-" + position]:
+                    problems.append(f"one-shot subscriber registered {position} the call was invoked with {seen}")
+                await simnet.drain(loop)
+            # a call started from inside a callback for the same type
+            inner = {}
+
+            def starts_call(m):
+                if "task" not in inner:
+                    inner["task"] = asyncio.ensure_future(conn.send_messages_await_response_complex((pb.DeviceInfoRequest(),), None, None, (pb.DeviceInfoResponse,), 5.0))
+            remove = conn.add_message_callback(starts_call, (pb.DeviceInfoResponse,))
+            tr.feed(simnet.plain_msg(pb.DeviceInfoResponse(name="earlier")))
+            await simnet.drain(loop)
+            remove()
+            t = inner.get("task")
+            if t is None:
+                problems.append("the callback did not run")
+            else:
+                if t.done():
+                    problems.append(f"a call started from inside a callback for its response type was completed by the message that was being dispatched "
+                                    f"({'error ' + type(t.exception()).__name__ if t.exception() else [m.name for m in t.result()]}): that message arrived before the request was written")
+                else:
+                    tr.feed(simnet.plain_msg(pb.DeviceInfoResponse(name="later")))
+                    await simnet.drain(loop)
+                    if not t.done() or t.exception() is not None or [m.name for m in t.result()] != ["later"]:
+                        problems.append("a call started from inside a callback was not completed by the next message of its type")
+                if not t.done():
+                    t.cancel()
+            await cli.disconnect(force=True)
+            await simnet.drain(loop)
+        return problems
+    return simnet.run(go)
+
+
 def run(rep, tier, seed):
     connfamily.run(rep, tier, seed, "C11", VFILE, RULE)
+    problems = one_shot_subscriber_probe()
+    rep.case(("one-shot-subscriber",), True, sample={"one_shot_subscriber": problems[:2]})
+    rep.bump("probe:one-shot-subscriber")
+    if problems:
+        rep.violation("C11/result", f"{problems[0]}; {len(problems)} problem(s)", {"kind": "one-shot-subscriber"})
     # the deadline of a call, on this platform and with the library imported as on Windows (constants derived from sys.platform at import)
     import sys
     from vlib import otherplatform
@@ -78,6 +152,12 @@ def replay(path):
     import json
     import sys
     d = json.loads(open(path).read())["replay"]
+    if d.get("kind") == "one-shot-subscriber":
+        from vlib import common
+        common.setup_impl_path()
+        problems = one_shot_subscriber_probe()
+        print(problems)
+        return 1 if problems else 0
     if d.get("kind") == "deadline-probe":
         from vlib import common, otherplatform
         common.setup_impl_path()
